@@ -151,6 +151,13 @@ def points(tier: str) -> List[dict]:
         P.append({"spec": {"model": "queens", "n": n, "fix_solution": queens_solution(n)}, "count": 1, "accepts": True})
     for n in (3, 5, 7, 9):
         P.append({"spec": {"model": "magic_square", "n": n, "sym": False, "fix_solution": siamese(n)}, "count": 1, "accepts": True})
+    gm = lcg(101)
+    for n in (8, 9, 14, 27, 50):
+        P.append({"spec": {"model": "queens", "n": n, "fix_many": [q + [q[i] + i for i in range(n)] + [q[i] - i for i in range(n)] for q in near_misses(queens_solution(n)[:n], 80 if not th else 400, gm, 0, n - 1)]}, "by_validator": True})
+    for n in (3, 5, 7):
+        P.append({"spec": {"model": "magic_square", "n": n, "sym": False, "fix_many": near_misses(siamese(n), 60 if not th else 300, gm, 1, n * n)}, "by_validator": True})
+    for n in (4, 5, 8):
+        P.append({"spec": {"model": "latin", "n": n, "fix_many": near_misses([(i + j) % n for i in range(n) for j in range(n)], 60 if not th else 300, gm, 0, n - 1)}, "by_validator": True})
     for n in (5, 8, 12):
         P.append({"spec": {"model": "latin", "n": n, "fix_solution": [(i + j) % n for i in range(n) for j in range(n)]}, "count": 1, "accepts": True})
     for v, b, r, k, l in ((3, 3, 2, 2, 1), (4, 6, 3, 2, 1), (4, 4, 3, 3, 2), (5, 5, 4, 4, 3), (3, 6, 4, 2, 2)):
@@ -200,8 +207,18 @@ def points(tier: str) -> List[dict]:
         n = 3 + next(g) % 3
         c = [[0 if a == b else next(g) % 6 for b in range(n)] for a in range(n)]
         P.append({"spec": {"model": "tsp", "costs": c, "op": "opt", "brute": True, "cfg": {}}, "optimum": "brute", "fix_heur": True})
-    for n in (3, 4, 5, 6):
+    for n in (3, 4, 5, 6, 7, 8) + ((9,) if th else ()):
         P.append({"spec": {"model": "circuit", "n": n, "brute": True}, "count": "brute"})
+    for i in range(3 if not th else 10):
+        # sizes at which the path bookkeeping of the sub-cycle constraint merges long paths
+        n = 7 + next(g) % 3
+        c = [[0 if a == b else 1 + next(g) % 9 for b in range(n)] for a in range(n)]
+        P.append({"spec": {"model": "tsp", "costs": c, "op": "opt", "brute": True, "cfg": {"tsp_heuristics": bool(i % 2)}}, "optimum": "brute", "fix_heur": bool(i % 2)})
+    for n in (8, 9, 10, 12, 16):
+        # fully instantiated successor vectors, Hamiltonian or made of several cycles (every cycle type, in every index
+        # order): the model must accept exactly the Hamiltonian ones
+        cands = successor_candidates(n, 150 if not th else 600, g)
+        P.append({"spec": {"model": "circuit", "n": n, "fix_many": cands}, "count": sum(1 for s_ in cands if hamiltonian(s_))})
     # smallest sizes and degenerate parameters of every model
     for n in (1, 2, 3):
         P.append({"spec": {"model": "queens", "n": n}, "count": QUEENS[n]})
@@ -228,6 +245,67 @@ def points(tier: str) -> List[dict]:
     P.append({"spec": {"model": "alpha"}, "count": 1, "slow": True})
     P.append({"spec": {"model": "donald"}, "count": 1})
     return P
+
+
+def near_misses(base: list, count: int, g, lo: int, hi: int) -> list:
+    """A valid object and small edits of it (two cells exchanged, one cell changed, a valid object edited twice): most
+    are not valid any more; which ones are is decided by the definition-level validator in the worker."""
+    out = [list(base)]
+    n = len(base)
+    for c in range(count):
+        x = list(base)
+        for _ in range(1 + c % 2):
+            k = next(g) % 3
+            i, j = next(g) % n, next(g) % n
+            if k == 0:
+                x[i], x[j] = x[j], x[i]
+            elif k == 1:
+                x[i] = lo + next(g) % (hi - lo + 1)
+            else:
+                x[i] = max(lo, min(hi, x[i] + (1 if next(g) % 2 else -1)))
+        if x not in out:
+            out.append(x)
+    return out
+
+
+def hamiltonian(succ) -> bool:
+    n = len(succ)
+    if sorted(succ) != list(range(n)):
+        return False
+    cur, k = 0, 0
+    while True:
+        cur = succ[cur]
+        k += 1
+        if cur == 0 or k > n:
+            break
+    return k == n
+
+
+def successor_candidates(n: int, count: int, g) -> list:
+    """Permutations of 0..n-1 given as successor vectors: random cycle types over randomly relabelled vertices."""
+    out = []
+    for c in range(count):
+        labels = list(range(n))
+        for i in range(n - 1, 0, -1):
+            j = next(g) % (i + 1)
+            labels[i], labels[j] = labels[j], labels[i]
+        # cut the relabelled sequence into cycles: one cycle (Hamiltonian) in a third of the candidates
+        cuts = []
+        if c % 3:
+            k = 2 + next(g) % 3
+            cuts = sorted(set(2 + next(g) % max(1, n - 3) for _ in range(k - 1)))
+            cuts = [x for x in cuts if 2 <= x <= n - 2]
+            cuts = [x for i, x in enumerate(cuts) if i == 0 or x - cuts[i - 1] >= 2]  # no loop i -> i: the domains exclude it
+        succ = [0] * n
+        start = 0
+        for end in cuts + [n]:
+            cyc = labels[start:end]
+            for a, b in zip(cyc, cyc[1:] + cyc[:1]):
+                succ[a] = b
+            start = end
+        if succ not in out:
+            out.append(succ)
+    return out
 
 
 ENUMERATED = True
@@ -312,7 +390,7 @@ def run(ch: Choices, focus: str = "C20", params: Optional[dict] = None) -> dict:
                     spec["seed"] = 1 + ch.choose(1000, "mpseed")
     spec["cfg"] = cfg
     res = execute(spec)
-    ctx = f"[{ {k: v for k, v in spec.items() if k not in ('givens', 'costs', 'weights', 'volumes', 'fix_solution')} }] "
+    ctx = f"[{ {k: v for k, v in spec.items() if k not in ('givens', 'costs', 'weights', 'volumes', 'fix_solution', 'fix_many')} }] "
     if pt.get("accepts"):
         out["probes"]["known_objects_offered"] += 1
         if res.get("rejected_by_domains"):
@@ -329,6 +407,12 @@ def run(ch: Choices, focus: str = "C20", params: Optional[dict] = None) -> dict:
             viol("invalid-object", ctx + f"solution {res['invalid']['solution']} is not a valid instance: {res['invalid']['why']}")
         if res.get("count") != res.get("distinct"):
             viol("duplicate-solution", ctx + f"{res['count']} solutions but only {res['distinct']} distinct")
+        if pt.get("by_validator"):
+            out["probes"]["candidates_judged_by_definition"] += len(spec.get("fix_many", []))
+            if res.get("expected_by_validator") is None:
+                viol("model-run-failed", ctx + "the candidates do not cover the variables of the model")
+            elif res["count"] != res["expected_by_validator"]:
+                viol("model-disagrees-with-definition", ctx + f"of {len(spec['fix_many'])} fully instantiated candidates the definition accepts {res['expected_by_validator']}, the model {res['count']}")
         want = pt.get("count")
         if want == "brute":
             want = res.get("brute")
@@ -363,6 +447,6 @@ def run(ch: Choices, focus: str = "C20", params: Optional[dict] = None) -> dict:
     out["result_count"] = res.get("count")
     out["log_sha"] = sha([spec, {k: res.get(k) for k in ("outcome", "count", "optimum", "invalid")}])
     out["key"] = sha(spec)[:16]
-    out["sample"] = {"spec": {k: v for k, v in spec.items() if k not in ("givens", "costs", "weights", "volumes", "fix_solution")},
+    out["sample"] = {"spec": {k: v for k, v in spec.items() if k not in ("givens", "costs", "weights", "volumes", "fix_solution", "fix_many")},
                      "count": res.get("count"), "optimum": res.get("optimum"), "delivery_order": res.get("delivery_order")}
     return out
